@@ -25,12 +25,16 @@ PROP = "C16"
 THEOREM_MODULES = ["WrapModel.Props.C16"]
 
 
-def gen_text(rng, kw=None):
+def gen_text(rng, kw=None, serializable=0.0):
     import gen
     cfg = dict(max_decls=3, max_members=3, max_depth=1, matlab_safe=True, typedef_same_ns=True, unique_ns=True, rich_defaults=False)
     cfg.update(kw or {})
     g = gen.Gen(rng, gen.Cfg(**cfg))
     m = gen.gen_module_inst(g)
+    for _, content in gen.walk_namespaces(m):
+        for d in content:
+            if d.kind == 'cls' and rng.random() < serializable:
+                d.cls.members.append(gen.Member('method', ret=gen.Ret(gen.Ty([], "void", None, False, '', True)), name="serialize", args=[], const=True))
     return m, gen.layout(rng, gen.lexemes(m), 'space')
 
 
@@ -45,7 +49,7 @@ def compose_case(idx, payload):
     seed, _ = payload
     rng = random.Random(seed * 1000003 + idx)
     nsub = rng.randint(0, 3)
-    texts = [gen_text(rng)[1] for _ in range(nsub + 1)]
+    texts = [gen_text(rng, dict(extra_kinds=['cls', 'cls']), serializable=0.5)[1] for _ in range(nsub + 1)]
     stems = ["part%d" % (i + 1) for i in range(nsub)]
     boost = rng.random() < 0.6
     top = ['']
@@ -115,12 +119,12 @@ def script_case(idx, payload):
     from gtwrap.pybind_wrapper import PybindWrapper
     seed, _ = payload
     rng = random.Random(seed * 1000003 + idx + 900000)
-    m, text = gen_text(rng, dict(max_depth=2))
+    m, text = gen_text(rng, dict(max_depth=2, max_decls=4, extra_kinds=['ns', 'ns', 'ns', 'cls']))
     import gen
     nss = [p for p, _ in gen.walk_namespaces(m) if p]
-    topp = list(rng.choice(nss)) if nss and rng.random() < 0.6 else []
+    topp = list(rng.choice(nss)) if nss and rng.random() < 0.8 else []
     spelling = "::".join(topp)
-    if topp and rng.random() < 0.4:
+    if topp and rng.random() < 0.5:
         spelling = "::" + spelling
     boost = rng.random() < 0.5
     sub = rng.random() < 0.4
